@@ -181,6 +181,16 @@ def check_text(case) -> str:
         same = _decoded_equal(sub, raw, fname)
     except Exception as e:
         raise Failure(f"text:{case['what']}", case, f"assembled without error but bytes do not decode: {type(e).__name__}: {e}")
+    if same and case.get("cls") and "value" in case:
+        # the bytes agree with what the assembler built, but does that still contain the operand the source text has?
+        import re as _re
+
+        back = deserialize(raw, flavour=_flav(fname))
+        toks = {t for i in back.instructions for t in _re.split(r"[\s\[\]:@,()]+", str(i)) if t}
+        v = case["value"]
+        want_tok = {str(v)} | {f"{b}{v}" for b in "RCQM"}
+        if not (toks & want_tok):
+            raise Failure(f"text:{case['what']}", case, f"silently altered: source {text!r} (operand {v} does not fit) assembled and encoded to bytes that decode as {[str(i) for i in back.instructions]}")
     if not same:
         back = deserialize(raw, flavour=_flav(fname))
         raise Failure(
